@@ -1066,3 +1066,117 @@ Proof.
         destruct (M lid HL) as [_ [d0 [D1 D2]]]. rewrite (ldoc_fun _ _ _ _ HD D1) in MM.
         apply D2 in MM. apply post_has_tok in MM. congruence.
 Qed.
+
+Lemma evald_ext q a b : (forall t, memN t a = memN t b) -> evald q a = evald q b.
+Proof. intros H. induction q; simpl; rewrite ?IHq1, ?IHq2, ?IHq; auto. Qed.
+
+Lemma sealed_search_sound c f q : fok c f -> sound_res c f q (sealed_search f q).
+Proof.
+  intros F x Hx. destruct q as [[qq qf] qt]. simpl in *. apply sort_ids_In in Hx.
+  apply in_map_iff in Hx as [sd [E H]]. apply filter_In in H as [H1 H2]. apply andb_prop in H2 as [H2 H3].
+  destruct (fk_sdocs c f F sd H1) as [d [BD [ID [TK _]]]]. exists d. subst x. rewrite ID.
+  repeat split; auto. rewrite <- (evald_ext qq _ _ TK). exact H3.
+Qed.
+
+(* exactly its bytes: a fetched body is the body of a document with that ID in a bulk this fraction accepted *)
+Definition sound_body (c : config) (f : frac) (x : id) (ob : option N) : Prop :=
+  forall body, ob = Some body -> exists d, blocks_docs c f d /\ d_id d = x /\ d_body d = body.
+
+Lemma fetch_one_sound c f nb xb ob : fok c f -> fetch_one c f nb xb = inl ob -> sound_body c f (fst xb) ob.
+Proof.
+  intros F H body E. subst ob. unfold fetch_one in H. destruct (snd xb); [|discriminate].
+  destruct (lookup_pos (fst xb) (f_pos f)) as [[b i]|] eqn:LP; [|discriminate].
+  destruct (Nat.ltb b nb); [|destruct (v_fetch_guard (c_ver c)); discriminate].
+  destruct (fk_pos c f F _ _ _ LP) as [wb [d [NB [ND ID]]]].
+  rewrite (nth_error_nth _ _ (0, 0) NB) in H. rewrite (nth_error_nth _ _ (mkDoc sys_id [] 0%N) ND) in H.
+  inversion H; subst. exists d. split; auto. exists wb. split; eapply nth_error_In; eauto.
+Qed.
+
+Lemma sealed_fetch_sound c f x : fok c f -> sound_body c f x (sealed_fetch f x).
+Proof.
+  intros F body H. unfold sealed_fetch in H. destruct (find _ (f_sdocs f)) as [sd|] eqn:FD; [|discriminate].
+  inversion H; subst. apply find_some in FD as [IN EQ]. apply id_eqb_eq in EQ.
+  destruct (fk_sdocs c f F sd IN) as [_ [_ [_ [_ [d' [BD [ID BO]]]]]]]. exists d'. rewrite <- EQ. auto.
+Qed.
+
+(* ---------------------------------------------------------------- reader steps *)
+Lemma step_r_sinv c st r :
+  SInv c st ->
+  SInv c (fst (step_r c st r)) /\
+  (forall x g q pc a b m n s p ids, nth_error (rs st) r = Some x -> r_op x = RSearch g q pc a b m n s p ->
+     snd (step_r c st r) = ORes ids -> sound_res c (getf st g) q ids) /\
+  (forall x g fl nb bodies, nth_error (rs st) r = Some x -> r_op x = RFetch g fl nb ->
+     snd (step_r c st r) = OFetch bodies -> Forall2 (fun xb ob => sound_body c (getf st g) (fst xb) ob) fl bodies).
+Proof.
+  intros SI. unfold step_r. destruct (nth_error (rs st) r) as [x|] eqn:EX; simpl.
+  2:{ split; auto. split; intros; discriminate. }
+  pose proof (si_r c st SI r x EX) as RK. unfold rok in RK.
+  destruct (r_op x) as [|g q pc a b m n s p|g fl nb] eqn:OP; simpl.
+  - split; auto. split; intros; discriminate.
+  - simpl in RK. destruct RK as [R1 [R2 R3]].
+    assert (FK : fok c (getf st g)) by (apply getf_fok; auto).
+    destruct pc; simpl.
+    + (* search.start -> after-mapping: the LID universe is the merged `_all_` posting *)
+      split; [|split; intros; discriminate].
+      set (st1 := setf st g (fun f => set_toks f (upd_tok 0%N merge_tok (f_toks f)))).
+      assert (S1 : SInv c st1).
+      { apply SInv_setf; auto; [intros; fx|]. intros f0 H. eapply (fok_merge c f0 _ 0%N); try reflexivity. eapply si_f; eauto. }
+      eapply (SInv_set_op c st1 r _ x); auto. simpl. split; [|split; [intros [H|H]; discriminate | intros H; discriminate]].
+      intros _. apply (map_ok_mono (getf st g)); [apply getf_fext; intros; fx|].
+      intros lid HL. assert (HP : In lid (post (getf st g) 0%N)) by exact HL.
+      split; [eapply post_nonzero; eauto|]. destruct (post_ldoc c _ _ _ FK HP) as [d [D1 D2]].
+      exists d. split; auto. intros t Ht. eapply fk_all; eauto.
+    + (* after-mapping -> after-ids *)
+      destruct (forallb (fun lid => Nat.ltb lid (length (f_ids (getf st g)))) m) eqn:FB; simpl.
+      * split; [|split; intros; discriminate]. eapply (SInv_set_op c st r _ x); auto. simpl.
+        split; [intros _; apply R1; discriminate|]. split; [|intros; discriminate].
+        intros _. unfold f_ids. rewrite map_length. split; auto. intros lid HL.
+        rewrite forallb_forall in FB. specialize (FB lid HL). apply Nat.ltb_lt in FB. unfold f_ids in FB. rewrite map_length in FB. exact FB.
+      * split; [|split; intros; discriminate]. eapply (SInv_set_op c _ r RIdle x); [apply SInv_set_rl; auto| exact EX | exact I].
+    + (* after-ids: evaluate the leaves *)
+      destruct (R2 (or_introl eq_refl)) as [NL LN].
+      destruct (advance_sinv c st r g q a b m n x (leaves (fst (fst q))) [] [] SI EX (R1 ltac:(discriminate)) NL LN eq_refl (Forall2_nil _)) as [A1 A2].
+      split; auto. split; [|intros; discriminate].
+      intros x0 g0 q0 pc0 a0 b0 m0 n0 s0 p0 ids H0 H1 H2. inversion H0; subst x0. inversion H1; subst. apply A2; auto.
+    + (* one leaf *)
+      destruct p as [|t rest]; simpl.
+      { split; auto. split; intros; discriminate. }
+      destruct (R2 (or_intror eq_refl)) as [NL LN]. destruct (R3 eq_refl) as [done [LV F2]].
+      pose proof (R1 ltac:(discriminate)) as M.
+      set (st1 := setf st g (fun f => set_toks f (upd_tok t merge_tok (f_toks f)))).
+      assert (S1 : SInv c st1).
+      { apply SInv_setf; auto; [intros; fx|]. intros f0 H. eapply (fok_merge c f0 _ t); try reflexivity. eapply si_f; eauto. }
+      assert (E1 : fext (getf st g) (getf st1 g)) by (apply getf_fext; intros; fx).
+      assert (L1 : f_ldocs (getf st1 g) = f_ldocs (getf st g) /\ f_blocks (getf st1 g) = f_blocks (getf st g)).
+      { unfold st1. rewrite getf_setf. destruct (_ && _)%bool; auto. }
+      destruct L1 as [L1 B1].
+      set (snap := filter (fun lid => memn lid m) (tl_sorted (merge_tok (get_tok t (f_toks (getf st g)))))).
+      assert (LK : leaf_ok (getf st1 g) m t snap).
+      { intros lid d HL HD. unfold ldoc in HD. rewrite L1 in HD. apply bool_eq_iff. split; intros H.
+        - apply memn_In in H. apply filter_In in H as [H _].
+          assert (HP : In lid (post (getf st g) t)) by exact H.
+          destruct (post_ldoc c _ _ _ FK HP) as [d' [D1 D2]]. rewrite (ldoc_fun _ _ _ _ HD D1). exact D2.
+        - destruct (M lid HL) as [_ [d0 [D1 D2]]]. rewrite (ldoc_fun _ _ _ _ HD D1) in H.
+          apply memn_In. apply filter_In. split; [exact (D2 t H)|]. apply memn_In. exact HL. }
+      destruct (advance_sinv c st1 r g q a b m n x rest (s ++ [snap]) (done ++ [t]) S1 EX) as [A1 A2].
+      * eapply map_ok_mono; eauto.
+      * rewrite L1. exact NL.
+      * exact LN.
+      * rewrite <- app_assoc. exact LV.
+      * apply Forall2_app; [|constructor; auto].
+        eapply Forall2_impl; [|exact F2]. intros t' s' H. eapply leaf_ok_mono; eauto.
+      * split; auto. split; [|intros; discriminate].
+        intros x0 g0 q0 pc0 a0 b0 m0 n0 s0 p0 ids H0 H1 H2. inversion H0; subst x0. inversion H1; subst.
+        eapply sound_res_blocks; [|apply A2; exact H2]. symmetry. exact B1.
+  - (* fetch *)
+    assert (FK : fok c (getf st g)) by (apply getf_fok; auto).
+    assert (SS : SInv c (set_op (setf st g (fun f => set_rl f (pred (f_rl f)))) r RIdle)).
+    { eapply (SInv_set_op c _ r RIdle x); [apply SInv_set_rl; auto| exact EX | exact I]. }
+    destruct (existsb _ _) eqn:EB; simpl; (split; [exact SS|]); (split; [intros; discriminate|]).
+    + intros; discriminate.
+    + intros x0 g0 fl0 nb0 bodies H0 H1 H2. inversion H0; subst x0. inversion H1; subst. inversion H2; subst. clear H0 H1 H2.
+      clear EB. induction fl0; simpl; constructor; auto.
+      destruct (fetch_one c (getf st g0) nb0 a) eqn:FO.
+      * eapply fetch_one_sound; eauto.
+      * intros body H; discriminate.
+Qed.
